@@ -61,15 +61,25 @@ void FeatureChecker::visitEdge(edge_t& edge)
 
 void FeatureChecker::visitGuard(expression_t& guard)
 {
+    if (guard.empty())
+        return;
     switch (guard.get_kind()) {
     case Constants::LT:
     case Constants::LE:
     case Constants::EQ:
+    case Constants::NEQ:
+    case Constants::GE:
+    case Constants::GT:
         for (size_t i = 0; i < guard.get_size(); ++i) {
             if (guard.get(i).uses_fp())
                 supported_methods.symbolic = false;
         }
-    default: break;
+        break;
+    default:
+        // the comparison may sit anywhere below conjunctions, quantifiers, ...
+        for (size_t i = 0; i < guard.get_size(); ++i)
+            visitGuard(guard.get(i));
+        break;
     }
 }
 
@@ -95,6 +105,8 @@ void FeatureChecker::visitLocation(location_t& location)
         return;
     if (isRateDisallowedInSymbolic(invariant))
         supported_methods.symbolic = false;
+    auto inv = invariant;
+    visitGuard(inv);  // clock bounds given as floating point are no better in invariants than in guards
 }
 
 /**
